@@ -69,6 +69,7 @@ def run(run, tier):
     from . import esirx
     esirx.part(run, tier, 'C04', props, per)
     C.extra_props(run, 'C04', props, ['C04esis'])
+    from . import genx; genx.part(run, tier, 'C04', props, per)
     if not props['ok']:
         run.violation('C04/proof', 'Props/C04.v no longer checks: %s' % props['log'][-400:], {'broken': 'coq/Props/C04.v', 'log': props['log']}, no_input=True)
     C.proof_coverage(run, props, total.n, min(len(total.distinct), total.nontrivial),
